@@ -6,7 +6,7 @@ from harness.checks.c04 import heaps, edges
 def main():
     ctx = Ctx("C05", "model_checking")
     thorough = ctx.tier == "thorough"
-    ctx.rule = ("The heaps of ObjGraph.tla (see C04; quick: seeded sample, thorough: every 4th of all 48 825) are instantiated, "
+    ctx.rule = ("The heaps of ObjGraph.tla (see C04; quick: seeded sample, thorough: every 4th of all 66 978) are instantiated, "
                 "to_dao(root) is added to a session on a fresh in-memory SQLite database and committed; the rows per table are "
                 "counted with plain SQL and compared with Rows (one row per distinct reachable object along the joined-table "
                 "chain); the root is then loaded in a fresh session through its own DAO class and through every DAO base class, "
